@@ -233,6 +233,27 @@ theorem c04_child_end_resumes_parent {prog : Nat → List Act} {nExt : Nat} {s :
   rw [finish_bound_eq s j f o hi hm]
   simp only [upd_ne _ _ hpj, upd_same, wk_of_aw _ f ct hp, delivered, retired, and_self]
 
+/-- The binding of a coroutine never changes once made (on any schedule), and every future that was created for a
+coroutine (`start()`, `co_await child`, …) has that coroutine bound to it: so a parent suspended on such a future always has
+a started child that has not finished yet and whose end will resume it (`c04_child_end_resumes_parent`). -/
+theorem c04_awaited_child_alive {prog : Nat → List Act} {nExt : Nat} {s : State} (h : Reachable prog nExt s)
+    (p f : Nat) (ct : Bool) (hp : (s.co p).st = St.awaiting f ct) (hf : s.nExt ≤ f) :
+    ∃ j, (s.co j).bound = some f ∧ (s.co j).st.started = true ∧ (s.co j).st ≠ St.done
+      ∧ ∀ ops, ((run s ops).co j).bound = some f := by
+  have hi := reachable_inv h
+  have hab : AllBound s := by
+    obtain ⟨ops, rfl⟩ := h
+    exact ab_run _ ops (inv_init prog nExt) (ab_init prog nExt)
+  have hlt : f < s.nextFut := hi.refs_lt p f (by simp [hp, St.refs])
+  obtain ⟨j, hj⟩ := hab f hf hlt
+  have hnr := ((c04_no_lost_wakeup h).1 p f ct hp).2
+  refine ⟨j, hj, ?_, ?_, ?_⟩
+  · cases hs : (s.co j).st.started
+    · have := (hi.co_ok j).unb hs; rw [this] at hj; cases hj
+    · rfl
+  · intro hd; have := (hi.bound_done j f hj hd).1; rw [hnr] at this; cases this
+  · intro ops; exact bk_run s ops hi j f hj
+
 /-- **Progress.**  A started coroutine that has not finished can always either take a step or is suspended on a future
 that is not resolved yet — it is never stranded in a state nobody will move (the executor's ordering is C05's business). -/
 theorem c04_progress {prog : Nat → List Act} {nExt : Nat} {s : State} (h : Reachable prog nExt s) (c : Nat)
